@@ -9,7 +9,10 @@
   BaseWSGIServer.readable                                (maintenance-due test, next_channel_cleanup
                                                           update, both branches of the admission
                                                           test with the in_connection_overflow update)
-  wasyncore.poll                                         (which objects enter the r / w / e lists)
+  wasyncore.poll                                         (which objects enter the r / w / e lists, which
+                                                          handle_*_event each select result list gets)
+  wasyncore.poll2 / readwrite                            (the event mask registered per object, the dispatch
+                                                          loop, which handler is called for which returned flags)
 
 Each item becomes a Gallina function over *named fields* (a fixed signature per
 item).  A tiny symbolic executor handles `if/elif/else`, assignments to the
@@ -500,6 +503,289 @@ def item_poll(trees):
     return out
 
 
+
+# ---------------------------------------------------------------------------
+# the two loop bodies: poll (select) dispatch, poll2 (select.poll) scan + readwrite
+
+POLLBITS = ["POLLIN", "POLLPRI", "POLLOUT", "POLLERR", "POLLHUP", "POLLNVAL"]
+PF = {"POLLIN": "pf_in", "POLLPRI": "pf_pri", "POLLOUT": "pf_out", "POLLERR": "pf_err",
+      "POLLHUP": "pf_hup", "POLLNVAL": "pf_nval"}
+RF = {"POLLIN": "f_in", "POLLPRI": "f_pri", "POLLOUT": "f_out", "POLLERR": "f_err", "POLLHUP": "f_hup", "POLLNVAL": "f_nval"}
+HANDLERS = {"handle_read_event": "read", "handle_write_event": "write", "handle_expt_event": "expt",
+            "handle_close": "close"}
+
+
+def flagset(e):
+    """select.POLLx | select.POLLy ...  -> set of bit names (parentheses are invisible in the ast)"""
+    if (isinstance(e, ast.Attribute) and isinstance(e.value, ast.Name) and e.value.id == "select"
+            and e.attr in POLLBITS):
+        return {e.attr}
+    if isinstance(e, ast.BinOp) and isinstance(e.op, ast.BitOr):
+        return flagset(e.left) | flagset(e.right)
+    raise Unsupported("flag expression %s" % ast.dump(e)[:60])
+
+
+def obj_call(e, obj_var):
+    """obj.<meth>() without arguments -> meth"""
+    if (isinstance(e, ast.Call) and not e.args and not e.keywords and isinstance(e.func, ast.Attribute)
+            and isinstance(e.func.value, ast.Name) and e.func.value.id == obj_var):
+        return e.func.attr
+    return None
+
+
+class ScanTr(Tr):
+    """Tr + obj.readable() / obj.writable() as the atoms is_r / is_w (each may be
+    called once per object and scan: they have side effects in the real classes)."""
+
+    def __init__(self, obj_var):
+        Tr.__init__(self, {obj_var})
+        self.obj_var = obj_var
+        self.calls = []
+
+    def expr(self, e):
+        m = obj_call(e, self.obj_var)
+        if m in ("readable", "writable"):
+            self.calls.append(m)
+            return ("is_r" if m == "readable" else "is_w"), "bool"
+        return Tr.expr(self, e)
+
+
+def is_map_get(e):
+    return (isinstance(e, ast.Attribute) and e.attr == "get" and isinstance(e.value, ast.Name) and e.value.id == "map")
+
+
+def map_get_aliases(fn):
+    """locals bound (once) to the bound method map.get"""
+    out = set()
+    for n in ast.walk(fn):
+        if (isinstance(n, ast.Assign) and len(n.targets) == 1 and isinstance(n.targets[0], ast.Name)
+                and is_map_get(n.value)):
+            out.add(n.targets[0].id)
+    for n in ast.walk(fn):   # an alias assigned anything else is not an alias
+        if isinstance(n, (ast.Assign, ast.AugAssign)):
+            for tg in (n.targets if isinstance(n, ast.Assign) else [n.target]):
+                if isinstance(tg, ast.Name) and tg.id in out and not is_map_get(n.value):
+                    out.discard(tg.id)
+    return out
+
+
+def map_get_skip(body, fd_var, aliases=()):
+    """obj = map.get(fd); if obj is None: continue   -> (obj name, rest of the body)"""
+    if len(body) < 2:
+        raise Unsupported("dispatch loop body")
+    a, c = body[0], body[1]
+    ok = (isinstance(a, ast.Assign) and len(a.targets) == 1 and isinstance(a.targets[0], ast.Name)
+          and isinstance(a.value, ast.Call)
+          and (is_map_get(a.value.func) or (isinstance(a.value.func, ast.Name) and a.value.func.id in aliases))
+          and [getattr(x, "id", None) for x in a.value.args] == [fd_var] and not a.value.keywords)
+    if not ok:
+        raise Unsupported("dispatch loop does not start with <obj> = map.get(<fd>)")
+    obj = a.targets[0].id
+    ok = (isinstance(c, ast.If) and not c.orelse and len(c.body) == 1 and isinstance(c.body[0], ast.Continue)
+          and isinstance(c.test, ast.Compare) and len(c.test.ops) == 1 and isinstance(c.test.ops[0], ast.Is)
+          and isinstance(c.test.left, ast.Name) and c.test.left.id == obj
+          and isinstance(c.test.comparators[0], ast.Constant) and c.test.comparators[0].value is None)
+    if not ok:
+        raise Unsupported("dispatch loop: second statement is not `if <obj> is None: continue`")
+    return obj, body[2:]
+
+
+def item_poll_dispatch(trees):
+    """poll(): which handle_*_event an object returned by select in r / w / e gets."""
+    tree = trees["wasyncore"]
+    fn = find_function(tree, "poll")
+    res = [n for n in ast.walk(fn) if isinstance(n, ast.Assign) and isinstance(n.value, ast.Call)
+           and isinstance(n.value.func, ast.Attribute) and n.value.func.attr == "select"
+           and isinstance(n.value.func.value, ast.Name) and n.value.func.value.id == "select"]
+    if len(res) != 1 or not (isinstance(res[0].targets[0], ast.Tuple) and len(res[0].targets[0].elts) == 3
+                             and all(isinstance(x, ast.Name) for x in res[0].targets[0].elts)):
+        raise Unsupported("poll: <r>, <w>, <e> = select.select(...) not found")
+    kinds = dict(zip([x.id for x in res[0].targets[0].elts], ("in_r", "in_w", "in_e")))
+    if len(kinds) != 3:
+        raise Unsupported("poll: select results are not three distinct locals")
+    loops = [n for n in ast.walk(fn) if isinstance(n, ast.For) and isinstance(n.target, ast.Name)]
+    called = {"read": [], "write": [], "expt": []}
+    seen = set()
+    for lp in loops:
+        if not (isinstance(lp.iter, ast.Name) and lp.iter.id in kinds) or lp.orelse:
+            raise Unsupported("poll: loop over something else than a select result")
+        kind = kinds[lp.iter.id]
+        if kind in seen:
+            raise Unsupported("poll: two loops over one select result")
+        seen.add(kind)
+        obj, rest = map_get_skip(lp.body, lp.target.id, map_get_aliases(fn))
+        if not (len(rest) == 1 and isinstance(rest[0], ast.Expr) and isinstance(rest[0].value, ast.Call)
+                and isinstance(rest[0].value.func, ast.Name) and not rest[0].value.keywords
+                and [getattr(x, "id", None) for x in rest[0].value.args] == [obj]):
+            raise Unsupported("poll: dispatch loop does not call <f>(<obj>)")
+        helper = find_function(tree, rest[0].value.func.id)
+        hb = strip_doc(helper.body)
+        if len(helper.args.args) != 1 or len(hb) != 1 or not isinstance(hb[0], ast.Try) or hb[0].orelse or hb[0].finalbody:
+            raise Unsupported("poll: helper %s is not a single try" % helper.name)
+        tb = hb[0].body
+        m = obj_call(tb[0].value, helper.args.args[0].arg) if (len(tb) == 1 and isinstance(tb[0], ast.Expr)) else None
+        if m not in ("handle_read_event", "handle_write_event", "handle_expt_event"):
+            raise Unsupported("poll: helper %s does not call exactly one handle_*_event" % helper.name)
+        called[HANDLERS[m]].append(kind)
+
+    def disj(l):
+        if not l:
+            return "false"
+        out = l[0]
+        for x in l[1:]:
+            out = "(orb %s %s)" % (out, x)
+        return out
+
+    body = "(%s, %s, %s)" % (disj(called["read"]), disj(called["write"]), disj(called["expt"]))
+    return [definition("gen_poll_dispatch", [("in_r", "bool"), ("in_w", "bool"), ("in_e", "bool")],
+                       "bool * bool * bool", body)]
+
+
+def item_poll2(trees):
+    """poll2(): the flag word registered per object, and that the dispatch loop hands
+    the returned flag word unchanged to readwrite()."""
+    fn = find_function(trees["wasyncore"], "poll2")
+    pair_loops = [n for n in ast.walk(fn) if isinstance(n, ast.For) and isinstance(n.target, ast.Tuple)
+                  and len(n.target.elts) == 2 and all(isinstance(e, ast.Name) for e in n.target.elts)]
+    scans = [l for l in pair_loops if isinstance(l.iter, ast.Call)]
+    disps = [l for l in pair_loops if isinstance(l.iter, ast.Name)]
+    if len(scans) != 1 or len(disps) != 1 or len(pair_loops) != 2:
+        raise Unsupported("poll2: expected one scan loop and one dispatch loop")
+    scan, disp = scans[0], disps[0]
+    fd_var, obj_var = [e.id for e in scan.target.elts]
+    # the register call names the flags local
+    regs = [n for n in ast.walk(scan) if isinstance(n, ast.Call) and isinstance(n.func, ast.Attribute)
+            and n.func.attr == "register"]
+    if len(regs) != 1 or len(regs[0].args) != 2 or regs[0].keywords or not all(isinstance(a, ast.Name) for a in regs[0].args) \
+            or regs[0].args[0].id != fd_var or not isinstance(regs[0].func.value, ast.Name):
+        raise Unsupported("poll2: <pollster>.register(<fd>, <flags>) not found")
+    pollster, flags_var = regs[0].func.value.id, regs[0].args[1].id
+    tr = ScanTr(obj_var)
+    n = [0]
+
+    def fresh(base):
+        n[0] += 1
+        return "%s_%d" % (base, n[0])
+
+    def run(stmts, bits, registered):
+        if not stmts:
+            if registered is None:
+                raise Unsupported("poll2: scan never registers")
+            return "(mkPF %s, %s)" % (" ".join(bits[b] for b in POLLBITS), registered)
+        s, rest = stmts[0], stmts[1:]
+        if registered is not None:
+            raise Unsupported("poll2: statements after register")
+        if isinstance(s, ast.AnnAssign) and s.value is not None and s.simple:
+            s = ast.Assign(targets=[s.target], value=s.value)
+        if isinstance(s, ast.Assign) and len(s.targets) == 1 and isinstance(s.targets[0], ast.Name):
+            name = s.targets[0].id
+            if name == flags_var:
+                if isinstance(s.value, ast.Constant) and s.value.value == 0 and s.value.value is not False:
+                    return run(rest, {b: "false" for b in POLLBITS}, None)
+                raise Unsupported("poll2: flags assigned something else than 0")
+            val = tr.truthy(s.value)
+            v = fresh("loc")
+            tr.locals[name] = (v, "bool")
+            return "(let %s := %s in %s)" % (v, val, run(rest, bits, None))
+
+        def set_bits(cond, aug):
+            if not (isinstance(aug, ast.AugAssign) and isinstance(aug.op, ast.BitOr)
+                    and isinstance(aug.target, ast.Name) and aug.target.id == flags_var):
+                raise Unsupported("poll2: %s" % ast.dump(aug)[:60])
+            if bits is None:
+                raise Unsupported("poll2: flags used before flags = 0")
+            out = dict(bits)
+            lets = []
+            for b in sorted(flagset(aug.value), key=POLLBITS.index):
+                v = fresh(PF[b])
+                lets.append((v, "true" if cond is None else "(orb %s %s)" % (bits[b], cond)))
+                out[b] = v
+            return out, lets
+
+        if isinstance(s, ast.AugAssign):
+            out, lets = set_bits(None, s)
+            inner = run(rest, out, None)
+            for v, e in reversed(lets):
+                inner = "(let %s := %s in %s)" % (v, e, inner)
+            return inner
+        if isinstance(s, ast.If) and not s.orelse and len(s.body) == 1:
+            b0 = s.body[0]
+            if isinstance(b0, ast.AugAssign):
+                c = fresh("c")
+                cond = tr.truthy(s.test)
+                out, lets = set_bits(c, b0)
+                inner = run(rest, out, None)
+                for v, e in reversed(lets):
+                    inner = "(let %s := %s in %s)" % (v, e, inner)
+                return "(let %s := %s in %s)" % (c, cond, inner)
+            if isinstance(b0, ast.Expr) and b0.value is regs[0]:
+                if not (isinstance(s.test, ast.Name) and s.test.id == flags_var) or bits is None:
+                    raise Unsupported("poll2: register is not guarded by `if <flags>:`")
+                anyb = bits[POLLBITS[0]]
+                for b in POLLBITS[1:]:
+                    anyb = "(orb %s %s)" % (anyb, bits[b])
+                return run(rest, bits, anyb)
+        if isinstance(s, ast.Expr) and s.value is regs[0]:
+            return run(rest, bits, "true")
+        raise Unsupported("poll2: scan statement %s" % ast.dump(s)[:70])
+
+    reg = run(list(scan.body), None, None)
+    for m in ("readable", "writable"):
+        if tr.calls.count(m) > 1:
+            raise Unsupported("poll2: obj.%s() is called %d times per object" % (m, tr.calls.count(m)))
+    check_atoms(tr, [("is_r", "bool"), ("is_w", "bool"), ("accepting", "bool")], "poll2 scan")
+    # dispatch loop:  for fd, flags in <result of pollster.poll()>: obj = map.get(fd); ...; readwrite(obj, flags)
+    res = [x for x in ast.walk(fn) if isinstance(x, ast.Assign) and len(x.targets) == 1 and isinstance(x.targets[0], ast.Name)
+           and x.targets[0].id == disp.iter.id and isinstance(x.value, ast.Call)
+           and isinstance(x.value.func, ast.Attribute) and x.value.func.attr == "poll"
+           and isinstance(x.value.func.value, ast.Name) and x.value.func.value.id == pollster]
+    if len(res) != 1:
+        raise Unsupported("poll2: the dispatch loop does not iterate over <pollster>.poll(...)")
+    dfd, dflags = [e.id for e in disp.target.elts]
+    obj, rest = map_get_skip(disp.body, dfd, map_get_aliases(fn))
+    ok = (len(rest) == 1 and isinstance(rest[0], ast.Expr) and isinstance(rest[0].value, ast.Call)
+          and isinstance(rest[0].value.func, ast.Name) and rest[0].value.func.id == "readwrite"
+          and not rest[0].value.keywords
+          and [getattr(x, "id", None) for x in rest[0].value.args] == [obj, dflags])
+    if not ok or disp.orelse:
+        raise Unsupported("poll2: the dispatch loop does not call readwrite(<obj>, <flags>)")
+    return [definition("gen_poll2_reg", [("is_r", "bool"), ("is_w", "bool"), ("accepting", "bool")],
+                       "pollflags * bool", reg),
+            "Definition gen_poll2_dispatches_readwrite : bool := true."]
+
+
+def item_readwrite(trees):
+    """readwrite(obj, flags): which handler is called for which returned flags."""
+    fn = find_function(trees["wasyncore"], "readwrite")
+    if len(fn.args.args) != 2:
+        raise Unsupported("readwrite: arguments")
+    obj_var, flags_var = fn.args.args[0].arg, fn.args.args[1].arg
+    body = strip_doc(fn.body)
+    if len(body) != 1 or not isinstance(body[0], ast.Try) or body[0].orelse or body[0].finalbody:
+        raise Unsupported("readwrite: not a single try without else/finally")
+    eff = {"read": "false", "write": "false", "expt": "false", "close": "false"}
+    for s in body[0].body:
+        ok = (isinstance(s, ast.If) and not s.orelse and len(s.body) == 1 and isinstance(s.body[0], ast.Expr)
+              and isinstance(s.test, ast.BinOp) and isinstance(s.test.op, ast.BitAnd))
+        m = obj_call(s.body[0].value, obj_var) if ok else None
+        if m not in HANDLERS:
+            raise Unsupported("readwrite: statement %s" % ast.dump(s)[:70])
+        l, r = s.test.left, s.test.right
+        if isinstance(r, ast.Name) and r.id == flags_var:
+            l, r = r, l
+        if not (isinstance(l, ast.Name) and l.id == flags_var):
+            raise Unsupported("readwrite: test is not <flags> & <constants>")
+        bits = sorted(flagset(r), key=POLLBITS.index)
+        t = RF[bits[0]]
+        for b in bits[1:]:
+            t = "(orb %s %s)" % (t, RF[b])
+        k = HANDLERS[m]
+        eff[k] = t if eff[k] == "false" else "(orb %s %s)" % (eff[k], t)
+    sig = [(RF[b], "bool") for b in POLLBITS]
+    return [definition("gen_readwrite", sig, "bool * bool * bool * bool",
+                       "(%s, %s, %s, %s)" % (eff["read"], eff["write"], eff["expt"], eff["close"]))]
+
+
 ITEMS = [
     ("gen_chan_readable", item_chan_readable),
     ("gen_chan_writable", item_chan_writable),
@@ -507,6 +793,9 @@ ITEMS = [
     ("gen_maint_cutoff gen_maint_test", item_maintenance),
     ("gen_srv_readable", item_srv_readable),
     ("gen_poll_r gen_poll_w gen_poll_e", item_poll),
+    ("gen_poll_dispatch", item_poll_dispatch),
+    ("gen_poll2_reg gen_poll2_dispatches_readwrite", item_poll2),
+    ("gen_readwrite", item_readwrite),
 ]
 
 
@@ -528,6 +817,9 @@ def generate():
     w("")
     w("(* which flush function HTTPChannel.handle_write selects *)")
     w("Inductive flush_kind : Set := FlushSome | FlushIfLockable | FlushNone.")
+    w("")
+    w("(* a select.poll() event mask: POLLIN POLLPRI POLLOUT POLLERR POLLHUP POLLNVAL *)")
+    w("Record pollflags : Set := mkPF { pf_in : bool; pf_pri : bool; pf_out : bool; pf_err : bool; pf_hup : bool; pf_nval : bool }.")
     w("")
     for names, fn in ITEMS:
         try:
